@@ -124,23 +124,37 @@ def run(ctx):
                         continue
                     new = doc_tokens(tr.doc)
                     delta = len(new) - len(old)
-                    # every old token before the node's opening and after its closing is still there in order, and the
-                    # node itself (same open token) is intact: not removed, split or merged.  (Content that does not fit
-                    # inside may be placed after the re-closed node, and replace_range_with may insert a block node at the
-                    # nearest place it fits, possibly outside; neither removes or rewrites anything outside.)
-                    bad = None
-                    cand = [i for i, tk in enumerate(new) if tk == old[a]]
-                    ok_any = False
-                    for i in cand:
-                        j = match_close(new, i)
-                        if j is None:
-                            continue
-                        if is_subseq(old[:a], new[:i]) and is_subseq(old[b:], new[j + 1:]):
-                            ok_any = True
-                            break
-                    if not ok_any:
-                        ctx.violation("escaped", f"{name} removed/changed tokens before the isolating node's opening or after its closing, or removed/split/merged the node",
-                                      dict(replay, steps=[s.to_json() for s in tr.steps], result=tr.doc.to_json()))
+                    # the property, literally: every token up to and including the node's opening and from its closing on is
+                    # unchanged (so the node is neither removed nor split nor merged, and nothing is added outside it)
+                    tail = len(old) - (b - 1)
+                    strict_ok = (len(new) >= a + 1 + tail and new[:a + 1] == old[:a + 1] and new[len(new) - tail:] == old[b - 1:]
+                                 and match_close(new, a) == len(new) - tail)
+                    if not strict_ok:
+                        # data for classifying the failure (pure function of the replay): do the old outside tokens survive in
+                        # order around an intact copy of the node (something was only *added* outside), and do all emitted
+                        # steps lie inside the node's content
+                        relaxed_ok = False
+                        for i in [i for i, tk in enumerate(new) if tk == old[a]]:
+                            j = match_close(new, i)
+                            if j is not None and is_subseq(old[:a], new[:i]) and is_subseq(old[b:], new[j + 1:]):
+                                relaxed_ok = True
+                                break
+                        lo, hi, inside = a + 1, b - 1, True
+                        for k, s_ in enumerate(tr.steps):
+                            # the step starts inside the node's content and ends inside it, or runs on only over closing tokens
+                            # (which its slice then has to re-create: `survives_in_order` says they are still there)
+                            if not (lo <= s_.from_ <= hi and s_.from_ <= s_.to) or \
+                                    (s_.to > hi and any(tk[0] != "cl" for tk in doc_tokens(tr.docs[k])[hi:s_.to])):
+                                inside = False
+                                break
+                            nxt_ = tr.docs[k + 1] if k + 1 < len(tr.docs) else tr.doc
+                            hi += nxt_.content.size - tr.docs[k].content.size
+                        pure_outside = (len(tr.steps) == 1 and tr.steps[0].from_ == tr.steps[0].to and hasattr(tr.steps[0], "slice")
+                                        and not hasattr(tr.steps[0], "gap_from") and not (a + 1 <= tr.steps[0].from_ <= b - 1))
+                        ctx.violation("escaped", f"{name} changed tokens outside the isolating node's content (before/at its opening or from its closing on), "
+                                                 "or removed/split/merged the node",
+                                      dict(replay, steps=[s_.to_json() for s_ in tr.steps], result=tr.doc.to_json(),
+                                           survives_in_order=relaxed_ok, steps_inside=inside, pure_insert_outside=pure_outside))
                     cur_a, cur_b = a, b
                     for k, s in enumerate(tr.steps):
                         if getattr(s, "from_", None) is not None and s.from_ == getattr(s, "to", None) and s.from_ <= cur_a:
